@@ -1,10 +1,9 @@
-import re
 import string
 from enum import Enum
 from typing import Any, Optional
 
 from flamapy.core.transformations import ModelToText
-from flamapy.core.models.ast import ASTOperation
+from flamapy.core.models.ast import ASTOperation, Node
 from flamapy.metamodels.fm_metamodel.models import FeatureModel, Feature, Constraint
 
 
@@ -116,16 +115,34 @@ def read_constraints(const: Constraint) -> str:
     return result
 
 
+CLAFER_OPERATORS = {ASTOperation.NOT: 'not',
+                    ASTOperation.AND: '&&',
+                    ASTOperation.OR: '||',
+                    ASTOperation.XOR: 'xor',
+                    ASTOperation.IMPLIES: '=>',
+                    ASTOperation.REQUIRES: '=>',
+                    ASTOperation.EXCLUDES: '=> not',
+                    ASTOperation.EQUIVALENCE: '<=>'}
+
+
 def serialize_constraint(ctc: Constraint) -> str:
-    ctc_str = ctc.ast.pretty_str()
-    ctc_str = re.sub(fr'\b{ASTOperation.NOT.value}\b', 'not', ctc_str)
-    ctc_str = re.sub(fr'\b{ASTOperation.AND.value}\b', '&&', ctc_str)
-    ctc_str = re.sub(fr'\b{ASTOperation.OR.value}\b', '||', ctc_str)
-    ctc_str = re.sub(fr'\b{ASTOperation.IMPLIES.value}\b', '=>', ctc_str)
-    ctc_str = re.sub(fr'\b{ASTOperation.EQUIVALENCE.value}\b', '<=>', ctc_str)
-    ctc_str = re.sub(fr'\b{ASTOperation.REQUIRES.value}\b', '=>', ctc_str)
-    ctc_str = re.sub(fr'\b{ASTOperation.EXCLUDES.value}\b', '=> not', ctc_str)
-    return f'[{ctc_str}]'
+    return f'[{serialize_node(ctc.ast.root)}]'
+
+
+def serialize_node(node: Node) -> str:
+    """Serialize the AST directly, so that the names of the features are never mistaken
+    for operators (e.g., a feature called 'OR')."""
+    if node.is_term():
+        return safename(str(node.data))
+    operator = CLAFER_OPERATORS[node.data]
+    if node.is_unary_op():
+        return f'{operator} {serialize_operand(node.left)}'
+    return f'{serialize_operand(node.left)} {operator} {serialize_operand(node.right)}'
+
+
+def serialize_operand(node: Node) -> str:
+    result = serialize_node(node)
+    return f'({result})' if node.is_binary_op() else result
 
 
 def attributes_definition(feature_model: FeatureModel) -> str:
